@@ -52,6 +52,11 @@ type HyperNodesInfo struct {
 
 	// ready indicates whether the HyperNodesInfo is ready (build process is complete).
 	ready *atomic.Bool
+
+	// failedRebuilds names the HyperNodes whose last rebuildCache returned an error. Their
+	// ancestor chains are half-built, so the view stays not ready until every one of them has
+	// been rebuilt successfully (or deleted), whatever other HyperNodes are updated meanwhile.
+	failedRebuilds sets.Set[string]
 }
 
 type HyperNodeInfoMap map[string]*HyperNodeInfo
@@ -245,6 +250,7 @@ func (hni *HyperNodesInfo) DeleteHyperNode(name string) error {
 
 	// We can safely delete hyperNode after updated ancestors.
 	hni.deleteHyperNode(name)
+	hni.refreshReady()
 	return nil
 }
 
@@ -316,9 +322,10 @@ func (hni *HyperNodesInfo) UpdateHyperNode(hn *topologyv1alpha1.HyperNode) error
 		}
 
 		if err := hni.rebuildCache(name, nodes); err != nil {
-			hni.setReady(false)
+			hni.markRebuildFailed(name)
 			return err
 		}
+		hni.failedRebuilds.Delete(name)
 
 		// For each child released above, find every other HyperNode whose spec
 		// claims that child as an exact-match member and rebuild it now.  Those
@@ -327,13 +334,14 @@ func (hni *HyperNodesInfo) UpdateHyperNode(hn *topologyv1alpha1.HyperNode) error
 		for freed := range freedMembers {
 			for _, claimer := range hni.hyperNodesThatClaimMember(freed, name) {
 				if err := hni.rebuildCache(claimer, nodes); err != nil {
-					hni.setReady(false)
+					hni.markRebuildFailed(claimer)
 					return err
 				}
+				hni.failedRebuilds.Delete(claimer)
 			}
 		}
 
-		hni.setReady(true)
+		hni.refreshReady()
 	}
 	return nil
 }
@@ -623,12 +631,46 @@ func (hni *HyperNodesInfo) updateAncestors(name string) error {
 	}
 
 	if err := hni.rebuildCache(name, nodes); err != nil {
-		hni.setReady(false)
+		hni.markRebuildFailed(name)
 		return err
 	}
-
-	hni.setReady(true)
+	hni.failedRebuilds.Delete(name)
 	return nil
+}
+
+// markRebuildFailed records that the ancestor chain of name is half-built and reports not ready.
+func (hni *HyperNodesInfo) markRebuildFailed(name string) {
+	if hni.failedRebuilds == nil {
+		hni.failedRebuilds = sets.New[string]()
+	}
+	hni.failedRebuilds.Insert(name)
+	hni.setReady(false)
+}
+
+// refreshReady retries the rebuilds that failed earlier and reports ready only when none of
+// them is left: a successful update of one HyperNode says nothing about a cycle or a doubly
+// claimed member that made the rebuild of another one fail.
+func (hni *HyperNodesInfo) refreshReady() {
+	if hni.failedRebuilds.Len() > 0 {
+		nodes, err := hni.nodeLister.List(labels.Everything())
+		if err != nil {
+			klog.ErrorS(err, "Failed to list nodes")
+			hni.setReady(false)
+			return
+		}
+		for _, name := range sets.List(hni.failedRebuilds) {
+			if _, ok := hni.hyperNodes[name]; !ok {
+				hni.failedRebuilds.Delete(name)
+				continue
+			}
+			if err := hni.rebuildCache(name, nodes); err != nil {
+				hni.setReady(false)
+				return
+			}
+			hni.failedRebuilds.Delete(name)
+		}
+	}
+	hni.setReady(true)
 }
 
 // rebuildCache recomputes the realNodesSet and parent/child relationships for the
